@@ -86,6 +86,7 @@ fn main() {
                 resume_unit: arg(&args, "--resume-unit").and_then(|s| s.parse().ok()),
                 resume_idx: arg(&args, "--resume-idx").and_then(|s| s.parse().ok()).unwrap_or(0),
                 base: arg(&args, "--base").unwrap_or_else(|| usage()).to_string(),
+                checkpoint: arg(&args, "--checkpoint").and_then(|s| s.parse().ok()).unwrap_or(0),
             };
             worker::worker_main(a);
         }
@@ -136,7 +137,9 @@ fn run(args: &[String]) {
         .unwrap_or_else(|| std::thread::available_parallelism().map(|n| n.get() as u64).unwrap_or(4).min(16));
     let verif_dir = arg(args, "--verif-dir").unwrap_or("/verif").to_string();
     println!("VERIF_SEED={} property={} tier={:?} units={} workers={}", seed, prop, tier, units, workers);
-    let cfg = controller::RunCfg { prop: prop.clone(), seed, tier, units, workers, verif_dir: verif_dir.clone(), time_budget: None };
+    let checkpoint: u64 = arg(args, "--checkpoint").and_then(|s| s.parse().ok()).unwrap_or(0);
+    let evidence_dir = arg(args, "--evidence-dir").map(|s| s.to_string());
+    let cfg = controller::RunCfg { prop: prop.clone(), seed, tier, units, workers, verif_dir: verif_dir.clone(), time_budget: None, checkpoint, evidence_dir };
     let (agg, cases, scheds, states, wall) = controller::run_workers(&cfg);
 
     // triage
